@@ -17,7 +17,7 @@ from guppylang_internals.diagnostic import Error
 from guppylang_internals.error import GuppyComptimeError, GuppyError, exception_hook
 from guppylang_internals.nodes import GlobalCall, PlaceNode
 from guppylang_internals.tracing.builtins_mock import mock_builtins
-from guppylang_internals.tracing.object import GuppyObject
+from guppylang_internals.tracing.object import GuppyObject, GuppyStructObject
 from guppylang_internals.tracing.state import (
     TracingState,
     get_tracing_state,
@@ -158,8 +158,11 @@ def trace_call(func: CallableDef, *args: Any) -> Any:
     ]
 
     # Create dummy variables and bind the objects to them
+    # Only Python values are known at comptime, traced values are regular variables
     arg_vars: list[Variable] = [
-        ComptimeVariable(next(tmp_vars), obj._ty, None, static_value=arg)
+        Variable(next(tmp_vars), obj._ty, None)
+        if isinstance(arg, GuppyObject | GuppyStructObject)
+        else ComptimeVariable(next(tmp_vars), obj._ty, None, static_value=arg)
         for (obj, arg) in zip(args_objs, args, strict=True)
     ]
     locals = Locals({var.name: var for var in arg_vars})
